@@ -32,6 +32,7 @@ structure Feat where
   anyAttrs : Bool := false
   inherit : Bool := false
   wildcard : Bool := false
+  union : Bool := false
 deriving DecidableEq, Repr
 
 /-! ### metadata -/
@@ -78,6 +79,19 @@ def textVarOK (ft : Feat) (ci : ClassInfo) (v : XmlVar) : Bool :=
    | none => false) &&
   (v.init || fixedOK v) && fieldAgreesN ci v
 
+/-- the types of a union of primitives: two or more of `str` / `int` / `bool` (in the order the
+converter tries them) -/
+def primUnionOf (v : XmlVar) : Bool :=
+  decide (2 ≤ v.types.length) &&
+  v.types.all (fun t => decide (t = .prim .str) || decide (t = .prim .int) || decide (t = .prim .bool))
+
+/-- the type of a primitive of the fragment -/
+def pvalType : PVal → Option PT
+  | .str _ => some .str
+  | .int _ => some .int
+  | .bool _ => some .bool
+  | .qname _ => none
+
 def elemVarOK (ft : Feat) (Γ : Ctx) (m : XmlMeta) (ci : ClassInfo) (v : XmlVar) : Bool :=
   v.isElement && varBase ft v && decide (1 ≤ v.index) &&
   decide (m.elements.find? (·.1 = v.qname) = some (v.qname, [v])) &&
@@ -93,19 +107,22 @@ def elemVarOK (ft : Feat) (Γ : Ctx) (m : XmlMeta) (ci : ClassInfo) (v : XmlVar)
         if v.tokens || v.listElement then
           decide (v.default = .listFactory)
         else scalarDefault v.default t && (!v.nillable || decide (v.default = .none))
-      | none => false)
+      | none =>
+        -- a union of primitives: `Optional[Union[..]]` with default `None` or a list of them
+        ft.union && primUnionOf v && v.init && !v.tokens && !v.nillable &&
+        (if v.listElement then decide (v.default = .listFactory) else decide (v.default = .none)))
    | some c =>
      !v.tokens && decide (v.types = [.cls c]) &&
      (if v.listElement then decide (v.default = .listFactory) else decide (v.default = .none)) &&
      (metaOf Γ c (targetUri m.qname)).isSome) &&
   (v.init || fixedOK v) && fieldAgreesN ci v
 
-/-- a list wildcard: `List[object]` with default `[]`, no choices; its own (synthetic) qname leads
+/-- a wildcard: `List[object]` with default `[]` or `Optional[object]` with default `None`, no choices; its own (synthetic) qname leads
 `find_children` back to it and to nothing else -/
 def wildVarOK (m : XmlMeta) (ci : ClassInfo) (v : XmlVar) : Bool :=
-  v.isWildcard && v.listElement && v.init && !v.mixed && !v.tokens && !v.nillable && !v.isClazzUnion &&
+  v.isWildcard && v.init && !v.mixed && !v.tokens && !v.nillable && !v.isClazzUnion &&
   v.wrapperQName.isNone && v.sequence.isNone && v.elements.isEmpty && v.clazz.isNone &&
-  decide (v.default = .listFactory) && decide (1 ≤ v.index) && !v.qname.isEmpty &&
+  decide (v.default = if v.listElement then .listFactory else .none) && decide (1 ≤ v.index) && !v.qname.isEmpty &&
   decide (m.findChildren v.qname = [v]) && !m.wrappers.any (·.1 = v.qname) && m.text.isNone &&
   fieldAgreesN ci v
 
@@ -224,6 +241,15 @@ def textValOK (e : BEnv) (ci : ClassInfo) (var : XmlVar) (nil : Bool) (x : Val) 
        | _ => false)
   | none => false
 
+/-- one child element of a var whose type is a union of primitives: the value is what
+`converter.deserialize` makes of its own serialization, i.e. no type tried earlier accepts the text
+(`""` comes back as `""` whatever the types: the empty element has no text) -/
+def unionItemOK (e : BEnv) (var : XmlVar) : Val → Bool
+  | .prim p =>
+    (pvalType p).isSome &&
+    (decide (p = .str []) || (!(serPrim p).isEmpty && decide (deserialize e (serPrim p) var.types [] = some p)))
+  | _ => false
+
 /-- one child element of a primitive element var -/
 def primItemOK (var : XmlVar) (t : PT) : Val → Bool
   | .none => var.nillable        -- `xsi:nil`; comes back as the var default, which is `None`
@@ -301,9 +327,15 @@ def elemValOK (inh : Bool) (e : BEnv) (Γ : Ctx) (m : XmlMeta) (ci : ClassInfo) 
     (rec : ClassId → Option QN → Val → Bool) (x : Val) : Bool :=
   (var.init || fixedVal var x) &&
   if var.isWildcard then
-    (match x with
-     | .list xs => xs.all (wildItemOK e Γ m var)
-     | _ => false)
+    (if var.listElement then
+      (match x with
+       | .list xs => xs.all (wildItemOK e Γ m var)
+       | _ => false)
+     else
+      -- a single wildcard holds one generic element (a second child would be nested under a new one)
+      (match x with
+       | .none => fdNone ci var.name
+       | y => wildItemOK e Γ m var y))
   else
   match var.clazz with
   | none =>
@@ -323,7 +355,15 @@ def elemValOK (inh : Bool) (e : BEnv) (Γ : Ctx) (m : XmlMeta) (ci : ClassInfo) 
          (match x with
           | .none => var.nillable || fdNone ci var.name
           | y => primItemOK var t y)
-     | none => false)
+     | none =>
+       if var.listElement then
+         (match x with
+          | .list xs => xs.all (unionItemOK e var)
+          | _ => false)
+       else
+         (match x with
+          | .none => fdNone ci var.name
+          | y => unionItemOK e var y))
   | some c =>
     (match metaOf Γ c (targetUri m.qname) with
      | none => false
